@@ -51,6 +51,10 @@ def case_program(cases, charsigned):
             body.append(s_obs(e if c["t"] == "int" else cast(T("llong"), e)))
             continue
         g.append(s_decl(a, T(c["lt"]), i_e({"k": "lit", "t": T(c["lt"]), "v": c["a"]})))
+        if c["k"] == "bincast":
+            g.append(s_decl(b, T(c["lt"]), i_e({"k": "lit", "t": T(c["lt"]), "v": c["b"]})))
+            body.append(s_obs(bin_(c["op"], cast(T(c["mt"]), var(a)), cast(T(c["mt"]), var(b)))))
+            continue
         if c["k"] == "cast2":
             e = cast(TY(c["rt"]), cast(T(c["mt"]), var(a)))
             body.append(s_obs(e if c["rt"] not in ("float", "double") else cast(T("llong"), e)))
